@@ -40,20 +40,13 @@ impl DomainParticipant {
 #[verifier::external_body] pub fn user_traffic_unicast_port(domain_id: u16, participant_id: u16) -> (r: u16) { unimplemented!() }
 #[verifier::external_body] pub fn get_local_unicast_locators(port: u16) -> (r: Vec<Locator>) { unimplemented!() }
 
-// dds/with_key/datawriter.rs DataWriter<D, SA>: `impl RTPSEntity` guid() = self.my_guid, `impl HasQoSPolicy`
-// qos() = self.qos_policy.clone() — the GUID / QoS the application-side writer object was created with
+// dds/with_key/datawriter.rs: the type parameters of DataWriter<D, SA> (sample type, serializer) play no role here
 pub trait Keyed {}
 pub trait SerializerAdapter<D> {}
-#[verifier::external_body]
-#[verifier::accept_recursive_types(D)]
-#[verifier::accept_recursive_types(SA)]
-pub struct DataWriter<D, SA> { d: core::marker::PhantomData<(D, SA)> }
-impl<D, SA> DataWriter<D, SA> {
-    pub uninterp spec fn sp_guid(&self) -> GUID;
-    pub uninterp spec fn sp_qos(&self) -> QosPolicies;
-    #[verifier::external_body] pub fn guid(&self) -> (r: GUID) ensures r == self.sp_guid() { unimplemented!() }
-    #[verifier::external_body] pub fn qos(&self) -> (r: QosPolicies) ensures r == self.sp_qos() { unimplemented!() }
-}
+#[verifier::external_body] #[verifier::accept_recursive_types(D)] pub struct CDRSerializerAdapter<D> { d: core::marker::PhantomData<D> }
+impl<D> SerializerAdapter<D> for CDRSerializerAdapter<D> {}
+// R2 template impl: `#[derive(Clone)]` on QosPolicies (every field an Option of a Copy type) = a field-wise copy
+impl Clone for QosPolicies { #[verifier::external_body] fn clone(&self) -> (r: Self) ensures r == *self { unimplemented!() } }
 
 // ---- around RtpsReaderProxy::from_reader (rtps/rtps_reader_proxy.rs) -----------------------------
 // mio_06::Token (poll tokens are only used as map keys here)
@@ -129,4 +122,43 @@ impl Writer {
     #[verifier::external_body] pub fn topic_name(&self) -> (r: &String) ensures *r == self.topic { unimplemented!() }
     #[verifier::external_body] pub fn update_reader_proxy(&mut self, proxy: &RtpsReaderProxy, requested_qos: &QosPolicies)
         ensures *final(self) == w_update(*old(self), *proxy, *requested_qos) { unimplemented!() }
+}
+// ASSUMED (std): `impl PartialEq for String` compares the contents.  vstd specifies exactly this for
+// `String == String`; `&String == &String` (the blanket `impl PartialEq<&B> for &A`) goes through the spec-trait
+// side (obeys_eq_spec / eq_spec), which vstd leaves uninterpreted for String.
+#[verifier::external_body]
+pub proof fn axiom_string_eq()
+    ensures <String as PartialEqSpec>::obeys_eq_spec(), forall|a: String, b: String| #[trigger] a.eq_spec(&b) == (a@ == b@),
+{}
+
+// ---- around Discovery::write_single_reader_info / write_single_writer_info (discovery/discovery.rs) ---------
+// Arc<RwLock<DiscoveryDB>>; discovery_db_read(): the returned reference stands for the RwLockReadGuard (Deref).
+// The state seen under the lock is ARBITRARY (whatever this or another thread left there).
+#[verifier::external_body] pub struct DbHandle { opaque: u8 }
+#[verifier::external_body]
+pub fn discovery_db_read<'a>(discovery_db: &'a DbHandle) -> (g: &'a DiscoveryDB) { unimplemented!() }
+#[verifier::external_body] pub struct Timestamp { opaque: u8 }
+#[verifier::external_body] pub struct WriteError { opaque: u8 }
+// with_key::DiscoveryTopicPlCdr<DiscoveredReaderData> / <DiscoveredWriterData>, field `writer`: the DataWriters of the
+// built-in topics DCPSSubscription / DCPSPublication.
+// STUB whose `requires` IS the property (exit point): write(sample, timestamp) publishes one sample over SEDP.  The ghost
+// arguments (added by @@subst at the call; erased at run time) name the DB state read under the lock and the GUID
+// the caller was asked to announce.
+#[verifier::external_body] pub struct SubWriter { opaque: u8 }
+#[verifier::external_body] pub struct PubWriter { opaque: u8 }
+pub struct SubTopic { pub writer: SubWriter }
+pub struct PubTopic { pub writer: PubWriter }
+impl SubWriter {
+    #[verifier::external_body]
+    pub fn write(&self, Ghost(db): Ghost<DiscoveryDB>, Ghost(guid): Ghost<GUID>, data: DiscoveredReaderData, source_timestamp: Option<Timestamp>) -> (r: Result<(), WriteError>)
+        requires
+            db.local_topic_readers@.contains_key(guid) && data == db.local_topic_readers@[guid],   // [announce.sedp.write]
+    { unimplemented!() }
+}
+impl PubWriter {
+    #[verifier::external_body]
+    pub fn write(&self, Ghost(db): Ghost<DiscoveryDB>, Ghost(guid): Ghost<GUID>, data: DiscoveredWriterData, source_timestamp: Option<Timestamp>) -> (r: Result<(), WriteError>)
+        requires
+            db.local_topic_writers@.contains_key(guid) && data == db.local_topic_writers@[guid],   // [announce.sedp.write]
+    { unimplemented!() }
 }
